@@ -136,7 +136,15 @@ func runC18X1(c *Ctx) {
 	// the exit handler call: a call of a function value (parameter, captured or stored) taking an os.Signal
 	isHandler := func(i ssa.Instruction) bool {
 		cc := callCommon(i)
-		if cc == nil || cc.IsInvoke() || cc.StaticCallee() != nil {
+		if cc == nil {
+			return false
+		}
+		if cc.IsInvoke() {
+			// the handler as a small interface: a method taking the signal
+			ms := cc.Method.Type().(*types.Signature)
+			return ms.Params().Len() == 1 && typeStr(ms.Params().At(0).Type()) == "os.Signal"
+		}
+		if cc.StaticCallee() != nil {
 			return false
 		}
 		if _, isB := cc.Value.(*ssa.Builtin); isB {
